@@ -300,6 +300,31 @@ func (m *Machine) builtin(name string, args []Value, cc *ssa.CallCommon) Value {
 			}
 			return Slice{arr: &arr, off: 0, len: n, cap: 2 * n, et: d.et}
 		}
+	case "recover":
+		return Iface{} // no Go-level panic is in flight when deferred code runs normally
+	case "print", "println":
+		return nil
+	case "clear":
+		switch x := args[0].(type) {
+		case Bytes:
+			if x.st != nil {
+				n := m.concretize(x.len, 1<<16, "clear len")
+				for i := 0; i < n; i++ {
+					x.st.Write(Bin("bvadd", x.off, BV(64, uint64(i))), BV(8, 0))
+				}
+			}
+			return nil
+		case *MapObj:
+			x.keys, x.vals = nil, nil
+			return nil
+		case Slice:
+			for i := 0; i < x.len; i++ {
+				(*x.arr)[x.off+i] = m.zero(x.et)
+			}
+			return nil
+		case NilPtr:
+			return nil
+		}
 	case "min", "max":
 		r := args[0].(*Term)
 		signed := isSigned(cc.Args[0].Type())
@@ -335,6 +360,9 @@ func (m *Machine) builtin(name string, args []Value, cc *ssa.CallCommon) Value {
 			mo.vals = append(mo.vals[:i], mo.vals[i+1:]...)
 		}
 		return nil
+	}
+	if len(args) == 0 {
+		panic("builtin " + name + " is not modelled")
 	}
 	panic(fmt.Sprintf("builtin %s on %T", name, args[0]))
 }
